@@ -76,6 +76,20 @@ CLAIMED = {
         note="Conjugation symmetry, the 1/z tail, negativity, boundary values and G_ii(beta-) = -<n_i> are value-level consequences of C01 and C09 and are NOT decided here.",
         technique="sympy normal forms of both branches + sign-domain evaluation under the branch condition; loop-shape and dominance rules",
         ref="DESIGN.md §3 C11"),
+    "C09": dict(
+        text="Static formula and structure check of the Gibbs state: weights(s) == exp(-beta*(E_s - GroundEnergy)) for every state; Z_part accumulates them; DensityMatrix::compute sums Z over ALL blocks in one full loop and normalises all blocks "
+             "in a second loop after it; every block gets its own Hamiltonian block, beta and the GLOBAL ground energy, which is the minimum over all blocks (so the exp argument is <= 0: overflow safety); averages are "
+             "sum_s w_s sum_f g(Fock(block,f))|v_s(f)|^2 typed by index space (eigen-index vs Fock position of the part's own block); the ensemble average sums A(n,n) w(n) over diagonal blocks only with the block's own data.",
+        note="Value-level facts (weights sum to one to rounding, finiteness beyond the sign argument, traces on the full Fock space) are not decided; Eigen is trusted.",
+        technique="sympy normal forms over index-space typed atoms + loop-shape / phase-ordering dominance rules",
+        ref="DESIGN.md §3 C09"),
+    "C19": dict(
+        text="Structural clauses of truncation, on all CFG paths: at the four part-creation sites (G, susceptibility, two-particle G, ensemble average) the guard is exactly the disjunction of isRetained over the blocks whose "
+             "density-matrix parts the part uses (so a part is skipped only if ALL its blocks are discarded); a block's flag is reset and set true iff some weight exceeds the tolerance, scanning all states; truncateBlocks visits every block; "
+             "isRetained(b) reads block b.",
+        note="The eps-proportional error bound (e.g. 2*eps*dim/|Im z|) is numeric and is NOT decided.",
+        technique="guard-set vs use-set comparison under branch-fact canonicalisation; loop-shape rules",
+        ref="DESIGN.md §3 C19"),
 }
 
 NOT_YET = {}
